@@ -66,6 +66,72 @@ theorem reg_of_regular {sd ed : Posix.Date} {st et stdOff dstOff y0 L : Int}
     exact ⟨h2 y _ h1 h2' (Or.inl (ruleInstant_some _ _ _ _ gs)),
       h2 y _ h1 h2' (Or.inr (ruleInstant_some _ _ _ _ ge))⟩
 
+/-! ### a sufficient condition in the terms of `ExtendTransitions` -/
+
+theorem inst_eq (d : Posix.Date) (time off : Int) (y : Int) (hg : DateInGrammar d) :
+    ∃ n : Nat, inst d time off y = (dayNum y 1 1 + (n : Int)) * 86400 + time - off := by
+  obtain ⟨n, h, _⟩ := Ru.ruleDay_eq_modelDays d y hg
+  refine ⟨n, ?_⟩
+  unfold inst ruleInstant
+  rw [h]; rfl
+
+/-- the instant through the day count `TransOffset` computes -/
+theorem inst_model (d : Posix.Date) (time off : Int) (y : Int) (hg : DateInGrammar d) :
+    inst d time off y =
+      (dayNum y 1 1 + Ru.modelDays (Spec.isLeap y) (posixWeekday y 0) d) * 86400 + time - off := by
+  obtain ⟨n, h, hn⟩ := Ru.ruleDay_eq_modelDays d y hg
+  unfold inst ruleInstant
+  rw [h, ← hn]; rfl
+
+theorem dayNum_jan1 (y : Int) : dayNum y 1 1 = daysBeforeYear y := by
+  simp [dayNum, daysBeforeMonth, cumDays]
+
+/-- January 1st of a year at least two after `y0` is at least 365 days after that of `y0+1` -/
+theorem jan1_far (y0 y : Int) (h : y0 + 2 ≤ y) : dayNum (y0 + 1) 1 1 + 365 ≤ dayNum y 1 1 := by
+  rw [dayNum_jan1, dayNum_jan1]
+  have h1 := daysBeforeYear_lt (y0 + 1) y (by omega)
+  have h2 := daysInYear_cases (y0 + 1)
+  omega
+
+/-- clause 2 of `Regular` holds when the last recorded transition lies, in the local time `offL` of
+its type, before the end of civil year `y0` and the rule times net of the offset differences are
+less than 365 days negative -/
+theorem regular2_of_civilYear {sd ed : Posix.Date} {st et stdOff dstOff y0 L : Int} (offL : Int)
+    (gs : DateInGrammar sd) (ge : DateInGrammar ed)
+    (hy : L + offL < dayNum (y0 + 1) 1 1 * 86400)
+    (hs : -31536000 ≤ st - stdOff + offL) (he : -31536000 ≤ et - dstOff + offL) :
+    ∀ y a, y0 + 2 ≤ y → y ≤ y0 + 401 →
+      (ruleInstant sd st stdOff y = some a ∨ ruleInstant ed et dstOff y = some a) → L < a := by
+  intro y a h2 _ ha
+  have hj := jan1_far y0 y h2
+  rcases ha with ha | ha
+  · obtain ⟨n, hn⟩ := inst_eq sd st stdOff y gs
+    rw [ruleInstant_some _ _ _ _ gs] at ha
+    injection ha with ha
+    rw [← ha, hn]; omega
+  · obtain ⟨n, hn⟩ := inst_eq ed et dstOff y ge
+    rw [ruleInstant_some _ _ _ _ ge] at ha
+    injection ha with ha
+    rw [← ha, hn]; omega
+
+/-- `Regular` holds when the last recorded transition lies, in the local time `offL` of its type,
+before the end of civil year `y0` (`ExtendTransitions` takes `y0` to be that civil year), the rule
+times net of the offset differences are less than 365 days negative, and at least one of them is
+not negative -/
+theorem regular_of_civilYear {sd ed : Posix.Date} {st et stdOff dstOff y0 L : Int} (offL : Int)
+    (gs : DateInGrammar sd) (ge : DateInGrammar ed)
+    (hy : L + offL < dayNum (y0 + 1) 1 1 * 86400)
+    (hs : -31536000 ≤ st - stdOff + offL) (he : -31536000 ≤ et - dstOff + offL)
+    (h1 : 0 ≤ st - stdOff + offL ∨ 0 ≤ et - dstOff + offL) :
+    Regular sd st ed et stdOff dstOff y0 L := by
+  refine ⟨?_, ?_⟩
+  · rcases h1 with h1 | h1
+    · obtain ⟨n, hn⟩ := inst_eq sd st stdOff (y0 + 1) gs
+      exact ⟨_, Or.inl (ruleInstant_some _ _ _ _ gs), by rw [hn]; omega⟩
+    · obtain ⟨n, hn⟩ := inst_eq ed et dstOff (y0 + 1) ge
+      exact ⟨_, Or.inr (ruleInstant_some _ _ _ _ ge), by rw [hn]; omega⟩
+  · exact regular2_of_civilYear offL gs ge hy hs he
+
 /-! ### the rule's verdict, over instant functions -/
 
 /-- `a` is the start (`kind = true`) or the end (`kind = false`) instant of year `y` -/
@@ -181,6 +247,35 @@ theorem table_verdict (z : Zone) (wf : TableWF z) (rec : List Transition) (hrec 
       exact IsK.kind_eq c hk' hk
     · rw [hty, hti]; cases kind <;> rfl
 
+/-- the last entry of the table is the later instant of year y0+401 (when that is after the
+recorded part) -/
+theorem last_time_eq (z : Zone) (wf : TableWF z) (rec : List Transition) (hrec : rec ≠ [])
+    (s e : Int → Int) (dstTi stdTi : Nat) (y0 : Int) (c : Chain s e)
+    (gen : List Transition) (hl : z.transitions.toList = rec ++ gen)
+    (hkeys : gen.map key = (genList s e dstTi stdTi (lastTime rec) y0).map key)
+    (hL : lastTime rec < max (s (y0 + 401)) (e (y0 + 401))) :
+    timeOf z (z.transitions.size - 1) = max (s (y0 + 401)) (e (y0 + 401)) := by
+  have pw := pairwise_of_wf z wf
+  rw [hl, List.pairwise_append] at pw
+  obtain ⟨pr, _, _⟩ := pw
+  have hI : Inst s e (y0 + 401) (max (s (y0 + 401)) (e (y0 + 401))) := by
+    unfold Inst; omega
+  obtain ⟨x, hx, hxa⟩ := gen_of_inst hkeys (y := y0 + 401) (by omega) (by omega) hI hL
+  rw [← hxa]
+  apply last_of_max z wf x (by rw [hl]; exact List.mem_append_right _ hx)
+  intro x' hx'
+  rw [hl] at hx'
+  rcases List.mem_append.1 hx' with hm | hm
+  · have h1 := le_getLast rec hrec pr x' hm
+    rw [← lastTime_eq rec hrec] at h1
+    omega
+  · obtain ⟨y, kind, _, hy2, hk, _, _⟩ := gen_kind hkeys hm
+    by_cases hy : y = y0 + 401
+    · subst hy
+      rcases hk.inst with e1 | e1 <;> omega
+    · have := c.lt (show y < y0 + 401 by omega) hk.inst (Or.inl rfl)
+      omega
+
 /-! ### the core theorem -/
 
 theorem glue_core (z : Zone) (rec : List Transition) (s e : Int → Int) (ps : Per s) (pe : Per e)
@@ -199,25 +294,7 @@ theorem glue_core (z : Zone) (rec : List Transition) (s e : Int → Int) (ps : P
   have c := chain_of_sorted ps pe so rg
   have hne := c.ne (y0 + 401)
   have hr401 := rg.r2 (y0 + 401) (by omega) (by omega)
-  -- the last entry of the table is the later instant of year y0+401
-  have hlast : timeOf z (z.transitions.size - 1) = max (s (y0 + 401)) (e (y0 + 401)) := by
-    have hI : Inst s e (y0 + 401) (max (s (y0 + 401)) (e (y0 + 401))) := by
-      unfold Inst; omega
-    obtain ⟨x, hx, hxa⟩ := gen_of_inst hkeys (y := y0 + 401) (by omega) (by omega) hI (by omega)
-    rw [← hxa]
-    apply last_of_max z wf x (by rw [hl]; exact List.mem_append_right _ hx)
-    intro x' hx'
-    rw [hl] at hx'
-    rcases List.mem_append.1 hx' with hm | hm
-    · have h1 := le_getLast rec hrec pr x' hm
-      rw [← lastTime_eq rec hrec] at h1
-      omega
-    · obtain ⟨y, kind, _, hy2, hk, _, _⟩ := gen_kind hkeys hm
-      by_cases hy : y = y0 + 401
-      · subst hy
-        rcases hk.inst with e1 | e1 <;> omega
-      · have := c.lt (show y < y0 + 401 by omega) hk.inst (Or.inl rfl)
-        omega
+  have hlast := last_time_eq z wf rec hrec s e dstTi stdTi y0 c gen hl hkeys (by omega)
   by_cases hcase : t < timeOf z (z.transitions.size - 1)
   · -- inside the table
     obtain ⟨_, _, ho, hd, _⟩ := C01.breakTime_table z h t wf cc (Or.inr hcase)
